@@ -59,6 +59,10 @@ def _diff(fmt, e, g):
 
 def unit_store_histories(ctx, fmt, sig_prefix):
     ext = {"h5": ".h5", "ovf": ".ovf", "vtk": ".vtk"}[fmt]
+    # a third path: the SAME stem as path 0 with the sibling extension of the format (m0.omf next to m0.ovf, f.hdf5 next to
+    # f.h5): two different files, each with its own side-car
+    sibling = {"h5": ".hdf5", "ovf": ".omf", "vtk": None}[fmt]
+    paths = (0, 1, 2) if sibling else (0, 1)
     depth = 4 if ctx.tier == "quick" else 5
     fields = _fields(fmt, ctx.seed)
     snaps = [C.field_snap(f) for f in fields]
@@ -71,15 +75,15 @@ def unit_store_histories(ctx, fmt, sig_prefix):
             last = step == depth - 1
             ops = []
             if not last:
-                ops += [("W", i, p) for p in (0, 1) for i in (0, 1, 2)]
-            ops += [("R", None, p) for p in (0, 1) if p in model]
+                ops += [("W", i, p) for p in paths for i in ((0, 1, 2) if p != 2 else (1, 2))]
+            ops += [("R", None, p) for p in paths if p in model]
             if not last and last_read is not None:
                 ops.append(("M", None, None))
             if not ops:
                 return
             op = ctx.choose(f"op{step}", ops)
             hist.append(op)
-            path = None if op[2] is None else os.path.join(d, f"store{op[2]}{ext}")
+            path = None if op[2] is None else os.path.join(d, f"store{op[2]}{ext}" if op[2] != 2 else f"store0{sibling}")
             if op[0] == "W":
                 ctx.step(1, f"write field {op[1]} -> path {op[2]}")
                 fields[op[1]].to_file(path)
